@@ -28,18 +28,18 @@ def measure(text: str, font=1, size=9) -> float:
     return _W[k]
 
 
-def band_text(rng, tag, k, cw):
+def band_text(rng, tag, k, cw, font=1, size=9):
     """text starting with tag whose width is well inside the k-line band of a column cw inches wide"""
     if k <= 1:
         return tag
     lo, hi = (k - 1 + 0.25) * cw, (k - 0.25) * cw
     words = ["lorem", "ipsum", "dolor", "sit", "amet", "elit", "sed", "do"]
     s = tag
-    while measure(s) < lo:
+    while measure(s, font, size) < lo:
         s += " " + rng.choice(words)
-    while measure(s) > hi and len(s) > len(tag):
+    while measure(s, font, size) > hi and len(s) > len(tag):
         s = s[:-1].rstrip() or tag
-    return s if lo <= measure(s) <= hi else tag
+    return s if lo <= measure(s, font, size) <= hi else tag
 
 
 STRATEGIES = ["plain", "page_by", "page_by_np", "page_by_np_first", "subline", "subline_page_by"]
@@ -47,7 +47,7 @@ STRATEGIES = ["plain", "page_by", "page_by_np", "page_by_np_first", "subline", "
 
 def gen_spec(rng, *, strategy=None, n=None, nrow=None, header_mode=None, footnote=None, source=None,
              placements=None, long_rows=True, dividers=False, levels=None, title=None, subline=None,
-             page_headers=None, nulls=0.0, geometry=None, pageby_header=None):
+             page_headers=None, nulls=0.0, geometry=None, pageby_header=None, font=None, size=None):
     """Returns (spec, info). info carries what the oracles need (keys, displayed columns, …)."""
     strategy = strategy or rng.choice(STRATEGIES + ["plain"])
     n = rng.randint(0, 40) if n is None else n
@@ -70,7 +70,9 @@ def gen_spec(rng, *, strategy=None, n=None, nrow=None, header_mode=None, footnot
     hier = (subline_by or []) + (page_by or [])
     outer = None
     for lvl, kc in enumerate(hier):
-        alpha = [("SB" if kc.startswith("SL") else f"G{kc[2:]}") + x for x in "abcdefgh"]
+        # inner levels draw from a small alphabet so that equal inner values recur under different outer groups
+        letters = "abcdefgh" if lvl == 0 else rng.choice(["ab", "abc", "abcdefgh"])
+        alpha = [("SB" if kc.startswith("SL") else f"G{kc[2:]}") + x for x in letters]
         if outer is None:
             vals = docgen.run_keys(rng, n, alpha, 1, max(2, nrow))
         else:
@@ -125,7 +127,7 @@ def gen_spec(rng, *, strategy=None, n=None, nrow=None, header_mode=None, footnot
             if rng.random() < nulls:
                 row.append(None)
             elif j == jlong and k > 1:
-                row.append(band_text(rng, tag, k, cw))
+                row.append(band_text(rng, tag, k, cw, font or 1, size or 9))
             else:
                 row.append(tag)
         rows.append(row)
@@ -149,6 +151,10 @@ def gen_spec(rng, *, strategy=None, n=None, nrow=None, header_mode=None, footnot
         body["subline_by"] = subline_by
     ph = rng.random() < 0.5 if pageby_header is None else pageby_header
     body["pageby_header"] = ph
+    if font is not None:
+        body["text_font"] = font
+    if size is not None:
+        body["text_font_size"] = size
 
     def comp(kind, text):
         if kind is None:
@@ -172,7 +178,8 @@ def gen_spec(rng, *, strategy=None, n=None, nrow=None, header_mode=None, footnot
     info = dict(strategy=strategy, n=n, ndata=ndata, hier=hier, page_by=page_by, subline_by=subline_by,
                 displayed=displayed, removed=sorted(removed), col_total=col_total, header_mode=header_mode,
                 footnote=fk, source=sk, placements=[pt, pf, ps], new_page=new_page, pageby_row=pageby_row,
-                pageby_header=ph, has_title=has_title, has_subline_txt=has_subl, nrow=nrow)
+                pageby_header=ph, has_title=has_title, has_subline_txt=has_subl, nrow=nrow, font=font or 1,
+                size=size or 9)
     return spec, info
 
 
@@ -197,7 +204,7 @@ def ldoc_of(spec, info):
     for r in rows:
         ln = 1
         for k, ci in enumerate(disp_idx):
-            w = measure(str(r[ci]))
+            w = measure(str(r[ci]), info.get("font", 1), info.get("size", 9))
             ln = max(ln, max(1, int(w / widths[k]) + 1))
         pk = [r[cols.index(c)] for c in pb]
         sk = [r[cols.index(c)] for c in sb]
